@@ -2,7 +2,8 @@
    non-vacuity Examples at the end. *)
 From Coq Require Import String List ZArith Bool.
 From Verif Require Import Gen.Gen_consts Gen.Gen_funcs
-  C13.Model C13.Spec C13.Codec C13.Check C13.Proofs C13.Proofs_mutate C13.Proofs_codec C13.Proofs_stream.
+  C13.Model C13.Spec C13.Codec C13.Check C13.Proofs C13.Proofs_mutate C13.Proofs_codec C13.Proofs_stream
+  C13.Proofs_readmit.
 Import ListNotations.
 Open Scope Z_scope.
 
@@ -89,6 +90,20 @@ Theorem c13_validate_complete : forall g op old new,
 Proof. exact admitted_complete. Qed.
 Print Assumptions c13_validate_complete.
 
+(* the pod's request honours pod-level resources (spec.resources.requests) for cpu and memory:
+   they replace the aggregate of the containers, overhead is still added; reclaimed resources
+   cannot be requested at pod level *)
+Theorem c13_pod_level_cpu : forall p rq lm q,
+  p_plres p = Some (rq, lm) -> rget R_CPU rq = Some q ->
+  pod_request p R_CPU = q + rval R_CPU (p_overhead p).
+Proof. exact pod_level_cpu. Qed.
+Print Assumptions c13_pod_level_cpu.
+
+Theorem c13_pod_level_other : forall p r,
+  r <> R_CPU -> r <> R_MEM -> pod_request p r = containers_request p r + rval r (p_overhead p).
+Proof. exact pod_level_other. Qed.
+Print Assumptions c13_pod_level_other.
+
 (* Spec connection and what the driver runs on the validate stream *)
 Theorem c13_validate_code_spec : forall op old new,
   validate_code op old new true = 0 <-> C13_admitted op old new.
@@ -161,14 +176,16 @@ Proof. exact idempotent_thm. Qed.
 Print Assumptions c13_idempotent.
 
 (* re-admission as Create: excluded from the claim is the profile patching itself
-   (labelSuffixes append again, a changed label set can match other profiles); the exclusion
-   is the three hypotheses *)
+   (labelSuffixes append again, a changed label set can match other profiles, a profile may
+   write the summary annotation itself); the exclusion is the four hypotheses.  Annotations
+   other than the summary are outside the property and may be rewritten by the profiles. *)
 Theorem c13_idempotent_create : forall e ps p p1 p3,
   admit_pod e OP_CREATE ps p = Some p1 ->
   admit_pod e OP_CREATE ps p1 = Some p3 ->
   p_labels p3 = p_labels p1 -> p_prio p3 = p_prio p1 ->
   translating e ps p1 = translating e ps p ->
-  p3 = p1.
+  touches_summary e ps p1 = false ->
+  p3 = set_oann (p_oann p3) p1.
 Proof. exact readmit_create. Qed.
 Print Assumptions c13_idempotent_create.
 
@@ -181,9 +198,38 @@ Theorem c13_idempotent_create_sem : forall e ps p p1 p3,
   lget K_PCLASS (p_labels p3) = lget K_PCLASS (p_labels p1) ->
   p_prio p3 = p_prio p1 ->
   translating e ps p1 = translating e ps p ->
-  p3 = set_labels (p_labels p3) p1.
+  touches_summary e ps p1 = false ->
+  p3 = set_oann (p_oann p3) (set_labels (p_labels p3) p1).
 Proof. exact readmit_create_sem. Qed.
 Print Assumptions c13_idempotent_create_sem.
+
+(* the same claim with every hypothesis on the OUTPUT replaced by a structural condition on
+   the INPUT profile set (no labelKeysMapping / labelSuffixes, pod selectors independent of the
+   label keys the profiles write, no profile writes the summary annotation): the second
+   admission succeeds and changes nothing but, possibly, the order of labels and annotations
+   other than the summary *)
+Theorem c13_idempotent_create_stable : forall e ps p p1 p3,
+  stable_profiles ps = true ->
+  admit_pod e OP_CREATE ps p = Some p1 ->
+  admit_pod e OP_CREATE ps p1 = Some p3 ->
+  p3 = set_oann (p_oann p3) (set_labels (p_labels p3) p1)
+  /\ (forall k, lget k (p_labels p3) = lget k (p_labels p1))
+  /\ p_prio p3 = p_prio p1.
+Proof. exact readmit_create_stable. Qed.
+Print Assumptions c13_idempotent_create_stable.
+
+Theorem c13_idempotent_create_stable_total : forall e ps p p1,
+  stable_profiles ps = true ->
+  admit_pod e OP_CREATE ps p = Some p1 ->
+  exists p3, admit_pod e OP_CREATE ps p1 = Some p3.
+Proof. exact readmit_create_stable_total. Qed.
+Print Assumptions c13_idempotent_create_stable_total.
+
+(* no profile ever removes the summary annotation (profiles only write annotations) *)
+Theorem c13_profiles_keep_summary : forall e ps p p1,
+  profile_step e ps p = Some p1 -> p_ann p1 = AnnAbsent -> p_ann p = AnnAbsent.
+Proof. exact profile_step_ann. Qed.
+Print Assumptions c13_profiles_keep_summary.
 
 (* what the driver runs on the mutate stream: the decision procedure, including the wire
    codec of the observable, accepts the model's own observable for every input whose profile
@@ -219,11 +265,18 @@ Example ex_readmit_create :
   admit_pod ex_env OP_CREATE [ex_profile] ex_batch_pod_admitted = Some ex_batch_pod_admitted
   /\ translating ex_env [ex_profile] ex_batch_pod_admitted = translating ex_env [ex_profile] ex_batch_pod.
 Proof. vm_compute. split; reflexivity. Qed.
+Example ex_stable : stable_profiles [ex_profile] = true /\ touches_summary ex_env [ex_profile] ex_batch_pod_admitted = false.
+Proof. vm_compute. split; reflexivity. Qed.
+(* pod-level resources decide: 1.5 CPUs in the containers, 2 CPUs at pod level: admitted *)
+Example ex_pod_level :
+  allowed false OP_CREATE ex_plres_pod ex_plres_pod = true
+  /\ pod_request ex_plres_pod R_CPU = 2 * nano /\ containers_request ex_plres_pod R_CPU = 1500 * 1000000.
+Proof. vm_compute. repeat split; reflexivity. Qed.
 (* a non-trivial wire input (the pod of ex_translated) satisfying the hypothesis of c13_mutate_stream *)
 Example ex_wf_input :
-  let inp := [102; 1; 0; 0; 0; 0; 1; 1; 0; 0; 0; 1; 0; 0; 0; 0; 0; 0; 0; 0; 0; 2; 5000; 0; 0;
+  let inp := [102; 1; 0; 0; 0; 0; 1; 1; 0; 0; 0; 1; 0; 0; 0; 0; 0; 0; 0; 0; 0; 2; 5000; 0; 0; 0; 0;
               1; 0; 2; 66; 69; 0; 0; 0; 1; 0; 1; 0; 500; 1; 0; 2; 0; 2; 0; 1500; 2; 1; 1024; 3;
-              1; 0; 2; 3; 0; 0; 1; 1; 2048; 3; 1; 0; 100; 2; 0] in
+              1; 0; 2; 3; 0; 0; 1; 1; 2048; 3; 1; 0; 100; 2; 0; 0; 0] in
   wf_mutate inp = true /\ nontrivial_mutate inp = true
   /\ run_mutate inp = run_mutate_body (tl inp)
   /\ (let '(e, ps, p) := dec_mutate (tl inp) in
